@@ -132,7 +132,7 @@ func c20ExpandProgress(w *core.World, r *core.Report) {
 		return
 	}
 	bad := false
-	for _, b := range exp.Blocks {
+	for _, b := range core.Blocks(exp) {
 		for _, in := range b.Instrs {
 			st, ok := in.(*ssa.Store)
 			if !ok {
